@@ -84,6 +84,9 @@ pub enum React {
     PullError,
     /// two-subscription profiles: pull on the OTHER subscription's talkback from inside this handler
     PullOther,
+    /// from inside this handler, make upstream puppet (k mod #puppets) push its next item now (a
+    /// subject-like source that emits re-entrantly, nested in another delivery)
+    Poke(u8),
 }
 
 #[derive(Clone, Debug, Serialize, Deserialize, PartialEq, Eq, Hash)]
@@ -369,7 +372,7 @@ impl<'a, 'b> Gen<'a, 'b> {
         }
     }
 
-    fn sink_spec(&mut self, pullcount: bool, cross: bool) -> SinkSpec {
+    fn sink_spec(&mut self, pullcount: bool, cross: bool, poke_ok: bool) -> SinkSpec {
         let d = &mut *self.d;
         if pullcount {
             let react_default = d.pick(&[React::Pull, React::Nothing]);
@@ -406,6 +409,13 @@ impl<'a, 'b> Gen<'a, 'b> {
                     React::PullError,
                 ];
                 let mut react: Vec<React> = (0..n).map(|_| d.pick(&R)).collect();
+                if poke_ok {
+                    for r in react.iter_mut() {
+                        if d.below(8) == 7 {
+                            *r = React::Poke(d.u8());
+                        }
+                    }
+                }
                 if cross {
                     // sprinkle cross-subscription pulls
                     for r in react.iter_mut() {
@@ -565,7 +575,9 @@ pub fn decode(profile: Profile, bytes: &[u8], max_steps: usize) -> Scenario {
     let puppets: Vec<PuppetSpec> =
         (0..n_pup).map(|i| g.puppet_spec(late_ok[i], pullcount, no_sync)).collect();
     let cross = matches!(profile, Profile::Indep | Profile::Dual(_));
-    let mut sinks: Vec<SinkSpec> = (0..n_sinks).map(|_| g.sink_spec(pullcount, cross)).collect();
+    // nested fan-out under share with 2+ sinks is outside C12's quantifier (it is generated by ShareNested)
+    let poke_ok = !no_sync;
+    let mut sinks: Vec<SinkSpec> = (0..n_sinks).map(|_| g.sink_spec(pullcount, cross, poke_ok)).collect();
     if profile == Profile::FromIterDirect {
         sinks[0].pull_after_end = g.d.below(3) == 2;
     }
